@@ -180,6 +180,15 @@ def streams(rng, tier):
                     spec = ["name", nm[0]] if len(nm) == 1 and n % 2 else ["names", nm]
                     com.append({"op": "tab", "cols": _table(n), "key": ["2d", k[1], k[2], k[3], spec, bool(n % 3)]})
     out.append(("commute", com))
+    # the same selections on tables whose columns carry names that are NOT their own accessor (a space, a symbol, the name of a
+    # Vector attribute, upper case): by-name keys are exact stored names; the model keeps its own names (case["relabel"])
+    rel = []
+    labs = [{"a": "Unit Price", "b": "name", "c": "x-y", "q": "q q"}, {"a": "sum", "b": "B", "c": "c!", "q": "Q"},
+            {"a": "1st", "b": "T", "c": " c ", "q": "shape"}]
+    cand = [c for c in cols + com if c.get("cols") and (c.get("op") == "commute" or c["key"][0] in ("names", "name", "2d"))]
+    for c in rng.sample(cand, min(len(cand), 400 if tier == "quick" else 4000)):
+        rel.append(dict(c, relabel=rng.choice(labs)))
+    out.append(("relabelled", rel))
     out.append(("cmp", cmp_cases(rng, 600 if tier == "quick" else 8000)))
     # the same vector cases on "lived-in" operands (values.lived_in): read in every way, then rewritten in place
     lived = []
@@ -329,27 +338,51 @@ def _tres(f):
         return _exc(e)
 
 
+_LAB = {}          # set per case by observe(): model column name -> the name the implementation's table really carries
+
+
+def _L(s):
+    return _LAB.get(s, s)
+
+
+def _unlabel(o):
+    """real names in an observation -> the model's names"""
+    inv = {v: k for k, v in _LAB.items()}
+    if isinstance(o, dict):
+        return {k: (inv.get(v, v) if k == "name" and isinstance(v, str) else _unlabel(v)) for k, v in o.items()}
+    if isinstance(o, list):
+        return [_unlabel(x) for x in o]
+    return o
+
+
 def _mk_table(cols):
     from serif import Vector, Table
-    return Table([Vector([V.dec(x) for x in c["vals"]], name=c["name"]) for c in cols])
+    return Table([Vector([V.dec(x) for x in c["vals"]], name=_L(c["name"])) for c in cols])
 
 
 def _mk_tkey(K):
     t = K[0]
     if t == "name":
-        return K[1]
+        return _L(K[1])
     if t == "names":
-        return tuple(K[1])
+        return tuple(_L(x) for x in K[1])
     if t == "rows":
         return _mk_key(K[1])
     if t == "2d":
         rows = slice(K[1], K[2], K[3])
-        spec = K[4][1] if K[4][0] == "name" else tuple(K[4][1])
+        spec = _L(K[4][1]) if K[4][0] == "name" else tuple(_L(x) for x in K[4][1])
         return (rows, spec) if K[5] else (spec, rows)
     raise ValueError(K)
 
 
 def observe(case):
+    global _LAB
+    _LAB = case.get("relabel") or {}
+    o = _observe(case)
+    return _unlabel(o) if _LAB else o
+
+
+def _observe(case):
     import operator
     from serif import Vector, Table
     from serif.typeutils import slice_length
@@ -386,12 +419,12 @@ def observe(case):
         if op == "tab":
             if case.get("via_rename"):
                 j, old = case["via_rename"]
-                t = _mk_table([dict(c, name=old) if q == j else c for q, c in enumerate(case["cols"])])
+                t = _mk_table([dict(c, name=old) if q == j else c for q, c in enumerate(case["cols"])])      # (_mk_table relabels)
                 # the table is USED under its old names first (the very selection, by every old name, by all of them at once):
                 # whatever that leaves behind must not outlive the rename
-                new = case["cols"][j]["name"]
+                new = _L(case["cols"][j]["name"])
                 K0 = case["key"]
-                olds = [old if n == new else n for n in (K0[1] if K0[0] == "names" else [K0[1]] if K0[0] == "name" else [])]
+                olds = [_L(old) if _L(n) == new else _L(n) for n in (K0[1] if K0[0] == "names" else [K0[1]] if K0[0] == "name" else [])]
                 for probe in ([lambda: t[_mk_tkey(K0)]] + [lambda: t[tuple(olds)], lambda: t[olds[0]] if olds else None]
                               + [lambda: t[tuple(c.name for c in t.cols() if c.name is not None)]]):
                     try:
@@ -420,7 +453,7 @@ def observe(case):
         if op == "commute":
             t = _mk_table(case["cols"])
             rows = _mk_key(case["rows"])
-            names = tuple(case["names"])
+            names = tuple(_L(x) for x in case["names"])
             return {"o1": _tres(lambda: t[rows][names]), "o2": _tres(lambda: t[names][rows]),
                     "dt0": [V.schema_obs(c.schema()) for c in t._underlying]}
         if op == "cmp":
